@@ -660,6 +660,15 @@ func init() {
 	}
 	H["verifReach"] = func(fr *frame, a []value) value {
 		X.res.Reach[strArg(a[0])]++
+		// keep a few concrete witnesses of complete paths: the driver replays them
+		// natively to validate the encoding (assumptions hold, assertions pass)
+		if len(X.res.Witnesses) < X.cfg.maxWitness && X.sol != nil {
+			if r := X.sol.check(X.pc, ""); r == "sat" {
+				m := X.model()
+				X.res.Witnesses = append(X.res.Witnesses, violation{Harness: X.res.Name, Label: strArg(a[0]), Kind: "witness", Model: m, Choices: X.choices()})
+			}
+			X.sol.popQuery()
+		}
 		return nil
 	}
 	H["verifNote"] = func(fr *frame, a []value) value {
